@@ -640,6 +640,7 @@ func TestC20_DeltifyRandom(t *testing.T) {
 	_, excluding := ev.KnownClass("C20", knownSendBlock)
 	eng := rsync.NewEngine()
 	tl := newFaultTally()
+	lastSampled := ""
 	ev.Check(t, rec, 3000, 60000, func(rt *rapid.T) {
 		base, target, bs := drawBlocky(rt, "pair", 12)
 		m := uint64(rapid.SampledFrom([]int{0, 0, 1, 2, 5}).Draw(rt, "max.data.op"))
@@ -672,7 +673,8 @@ func TestC20_DeltifyRandom(t *testing.T) {
 				}
 				if info.NonTrivial {
 					rec.NonTrivial(ev.Hash(string(base), string(target), fmt.Sprint(bs, m, k, mode)))
-					if rec.WantSample() && len(free) >= 4 {
+					if rec.WantSample() && len(free) >= 4 && lastSampled != string(target) {
+						lastSampled = string(target)
 						rec.Sample(map[string]any{"base": string(base), "target": string(target), "block_size": bs, "max_data_op": m, "fault": f,
 							"fault_free_stream": renderOps(free), "error_returned": info.Errored})
 					}
@@ -789,6 +791,7 @@ func TestC20_TransmitRandom(t *testing.T) {
 	_, excluding := ev.KnownClass("C20", knownSendBlock)
 	dir := t.TempDir()
 	tl := newFaultTally()
+	lastSampled := ""
 	ev.Check(t, rec, 400, 6000, func(rt *rapid.T) {
 		nf := rapid.IntRange(1, 3).Draw(rt, "files")
 		var files []FileSpec
@@ -810,7 +813,8 @@ func TestC20_TransmitRandom(t *testing.T) {
 		v, fc := runTransmitCase(dir, files, excluding, tl, func(f Fault, info *FaultInfo, free []*rsync.Transmission) {
 			if info.NonTrivial {
 				rec.NonTrivial(ev.Hash(fmt.Sprintf("%v", files), fmt.Sprint(f)))
-				if rec.WantSample() && len(free) >= 6 {
+				if rec.WantSample() && len(free) >= 6 && lastSampled != fmt.Sprint(files) {
+					lastSampled = fmt.Sprint(files)
 					rec.Sample(map[string]any{"files": files, "fault": f, "fault_free_stream": renderTransmissions(free), "error_returned": info.Errored})
 				}
 			}
